@@ -10,27 +10,6 @@ Import ListNotations.
 Local Open Scope N_scope.
 Local Open Scope string_scope.
 
-Lemma forallb2_lift : forall A B (f : A -> B -> bool) (la : list A) (lb : list B),
-  forallb (fun a => forallb (f a) lb) la = true -> forall a b, In a la -> In b lb -> f a b = true.
-Proof.
-  intros A B f la lb H a b Ha Hb.
-  rewrite forallb_forall in H. specialize (H a Ha). rewrite forallb_forall in H. exact (H b Hb).
-Qed.
-
-(* lazily evaluated connectives (vm_compute is call-by-value: `a || b` would evaluate b on every cell) *)
-Definition lor_ (a : bool) (b : unit -> bool) : bool := if a then true else b tt.
-Definition limp (a b : bool) (c : unit -> bool) : bool := if a then (if b then true else c tt) else true.
-Lemma lor_true : forall a b, lor_ a b = true -> a = true \/ b tt = true.
-Proof. intros [] b; simpl; auto. Qed.
-Lemma limp_or : forall a b c, limp a b c = true -> a = true -> b = true \/ c tt = true.
-Proof. intros [] [] c; simpl; intros; auto; discriminate. Qed.
-
-Lemma forallb_assoc_lift : forall A (f : string -> A -> bool) (l : list (string * A)) name a,
-  forallb (fun kv => f (fst kv) (snd kv)) l = true -> assoc name l = Some a -> f name a = true.
-Proof.
-  intros A f l name a H E. rewrite forallb_forall in H. exact (H (name, a) (assoc_in _ _ _ _ E)).
-Qed.
-
 (* ================================================================ T: linter tables = reference tables *)
 
 Lemma lint_vars_in_ref :
@@ -124,7 +103,6 @@ Theorem obs_var_types_domain :
 Proof. vm_compute. reflexivity. Qed.
 
 (* ================================================================ variables *)
-Definition the_ctx : lint_ctx := declared_ctx backend_names director_names ratecounter_names.
 
 Definition var_model_check (r : string * string * string * N * N * N) (p : N) : bool :=
   match r with (t, n, op, lint, interp, ctx) =>
